@@ -711,7 +711,7 @@ impl<'a> Walker<'a> {
                             sub.push((false, fd.rust.to_string()));
                             self.typed(&fd.sch, v, kp, u, &sub, fd.yaml)
                         }
-                        None => self.any(v, kp, u),
+                        None => format!("G {}", self.any(v, kp, u)), // not a field: Serde asks for IgnoredAny
                     };
                     parts.push(format!("{} {} {} {}", hex(k), code(vr), code(vd), t));
                 }
@@ -732,7 +732,7 @@ impl<'a> Walker<'a> {
                                 sub.push((false, fd.rust.to_string()));
                                 self.typed(&fd.sch, sv, skp, mu, &sub, fd.yaml)
                             }
-                            None => self.any(sv, skp, mu),
+                            None => format!("G {}", self.any(sv, skp, mu)),
                         };
                         parts.push(format!("{} {} {} {}", hex(sk), code(vr), code(vd), t));
                     }
@@ -1124,6 +1124,9 @@ pub fn run(sink: &mut Sink, rng: &mut Rng, thorough: bool, out: &mut Vec<serde_j
         single_checks(&mut cx, &text, &rd[0], di % 3, true, &mut nontrivial);
     }
 
+    // ---------------- consumed keys stay recorded (map entries, flatten, alias)
+    consumed_keys_checks(&mut cx, &mut documents);
+
     // ---------------- adversarial: fields renamed to an unrelated YAML key
     renamed_checks(&mut cx, rng, if thorough { 400 } else { 60 }, &mut documents, &mut nontrivial);
 
@@ -1416,5 +1419,78 @@ fn multi_checks(cx: &mut Ctx, text: &str, rd: &[RenderedDoc], ov: usize, bom: bo
                 }
             }
         }
+    }
+}
+
+// ------------------------------------------------------------------------------------------------
+// keys the target type consumes stay recorded: map entries, flattened content, serde aliases
+// ------------------------------------------------------------------------------------------------
+
+#[derive(Debug, Clone, PartialEq, Deserialize, garde::Validate)]
+pub struct Extra {
+    #[garde(range(max = 10))]
+    pub level: u32,
+}
+
+#[derive(Debug, Clone, PartialEq, Deserialize, garde::Validate)]
+pub struct Conf {
+    #[garde(length(min = 2))]
+    pub name: String,
+    #[serde(flatten)]
+    #[garde(dive)]
+    pub extra: Extra,
+    #[garde(dive)]
+    pub stock: std::collections::HashMap<String, Item>,
+    #[serde(alias = "nickName")]
+    #[garde(length(min = 2))]
+    pub nick: String,
+}
+
+/// Fixed documents (positions written out by hand): values reached through a `HashMap` entry, a
+/// `#[serde(flatten)]` parent and a `#[serde(alias)]` key are consumed by the type and must stay in
+/// the path map; the unknown key `other` inside a map value must not.
+fn consumed_keys_checks(cx: &mut Ctx, documents: &mut u64) {
+    let text = "name: x\nlevel: 50\nstock:\n  widget: {name: w, qty: 500, unitPrice: 1, other: 3}\n  Name: {name: ok, qty: 1, unitPrice: 1}\nnickName: n\n";
+    *documents += 1;
+    cx.calls += 1;
+    cx.sink.count("oracle.call.from_str_valid<Conf>");
+    match guard(|| h::record::<Conf>(text, Options::default())) {
+        Outcome::Ok(r) => {
+            let keys: BTreeSet<String> = h::dump(&r.map).iter().map(|(p, _, _)| h::render(p)).collect();
+            for must in ["name", "level", "stock.widget.qty", "stock.Name.name", "nickName"] {
+                if !keys.contains(must) {
+                    cx.fail("C18-path-unresolved", &format!("consumed key `{must}` (map entry / flattened / alias) is missing from the path map"), text, format!("{keys:?}"), must.into());
+                }
+            }
+            if keys.contains("stock.widget.other") {
+                cx.fail("C18-decoy-key-shadows-field", "a key ignored by the target type is recorded in the path map", text, "stock.widget.other".into(), "absent".into());
+            }
+        }
+        _ => cx.fail("C18-harness-self-check", "Conf document does not deserialize", text, "error".into(), "Ok".into()),
+    }
+    let plain = guard(|| serde_saphyr::from_str::<Conf>(text));
+    match (plain, guard(|| serde_saphyr::from_str_valid::<Conf>(text))) {
+        (Outcome::Ok(_), Outcome::Err(e)) => {
+            let want: BTreeMap<&str, Pos> = [("name", (1u32, 7u32)), ("stock.widget.name", (4, 18)), ("stock.widget.qty", (4, 26))].into_iter().collect();
+            match issues_of(&e) {
+                Some((_, issues)) => {
+                    for (p, f) in &issues {
+                        let key = h::render(p);
+                        let Some(pos) = want.get(key.as_str()) else { continue };
+                        match f {
+                            Some((r, _, _)) if (r.0 as u32, r.1 as u32) == *pos => cx.sink.count("oracle.consumed.located"),
+                            Some((r, _, _)) => cx.fail("C18-path-wrong-use-site", &format!("from_str_valid<Conf>: `{key}`"), text, format!("{r:?}"), format!("{pos:?}")),
+                            None => cx.fail("C18-path-unresolved", &format!("from_str_valid<Conf>: `{key}` does not resolve"), text, "none".into(), format!("{pos:?}")),
+                        }
+                    }
+                    let got: BTreeSet<String> = issues.iter().map(|(p, _)| h::render(p)).collect();
+                    for k in want.keys() {
+                        if !got.contains(*k) { cx.fail("C18-issue-set-mismatch", "from_str_valid<Conf>: expected issue missing", text, format!("{got:?}"), k.to_string()); }
+                    }
+                }
+                None => cx.fail("C18-not-validation-error", "from_str_valid<Conf>", text, err_tok(&e), "validation error".into()),
+            }
+        }
+        _ => cx.fail("C18-harness-self-check", "Conf: expected plain Ok and validation error", text, "other".into(), "Ok / Err".into()),
     }
 }
